@@ -179,6 +179,13 @@ def _is_item_store(st, x):
 
 def _loop_to_comp(x, loop):
     body = loop.body
+    if len(body) == 1 and isinstance(body[0], ast.For) and not body[0].orelse:
+        # for a in A: for b in B: x.append(e)   ->   [e for a in A for b in B]
+        inner = _loop_to_comp(x, body[0])
+        if inner is not None and x not in _names_loaded(loop.iter):
+            inner.generators.insert(0, ast.comprehension(target=loop.target, iter=loop.iter, ifs=[], is_async=0))
+            return inner
+        return None
     if not body or not _is_append(body[-1], x):
         return None
     elt = body[-1].value.args[0]
